@@ -804,4 +804,501 @@ theorem scanM_prefix (n : Int) (m : ScanMode) (s : Str) (toks : List Tok) (h : s
     obtain ⟨Y, toks', h1, h2, h3, h4⟩ := this (by simpa using hh) len hlen
     refine ⟨c :: Y, toks', by simpa using h1, by simpa using h2, ?_, h4⟩
     rw [scanM_spec_char hc hc2, h3]
+
+/-! ### the text prefix is a prefix plus closing braces -/
+
+/-- level of the last token (`lvl` if there is none) -/
+def lastLvl : Nat → List Tok → Nat
+  | lvl, [] => lvl
+  | _, (_, l) :: r => lastLvl l r
+
+theorem prefixGo_shape (n : Int) (toks : List Tok) : ∀ len lvl,
+    ∃ pre post, toks = pre ++ post ∧
+      prefixGo n len lvl toks = tokText pre ++ List.replicate (lastLvl lvl pre) '}' := by
+  induction toks with
+  | nil => intro len lvl; exact ⟨[], [], rfl, by simp [prefixGo, lastLvl]⟩
+  | cons t r ih =>
+    intro len lvl
+    obtain ⟨t, l⟩ := t
+    simp only [prefixGo]
+    generalize (if isBraceTok t = true then len else len + 1) = len'
+    by_cases hstop : (len' : Int) ≥ n
+    · exact ⟨[(t, l)], r, rfl, by simp [if_pos hstop, lastLvl]⟩
+    · obtain ⟨pre, post, h1, h2⟩ := ih len' l
+      exact ⟨(t, l) :: pre, post, by simp [h1], by simp [if_neg hstop, h2, lastLvl]⟩
+
+theorem depthSat_append (a b : Str) : ∀ d, depthSat d (a ++ b) = depthSat (depthSat d a) b := by
+  induction a with
+  | nil => intro d; rfl
+  | cons c r ih =>
+    intro d
+    simp only [List.cons_append, depthSat]
+    split
+    · exact ih _
+    · split <;> exact ih _
+
+/-- every token's level is the saturating brace depth after it -/
+def SatChain : Nat → List Tok → Prop
+  | _, [] => True
+  | d, (t, l) :: r => depthSat d t = l ∧ SatChain l r
+
+theorem SatChain.depth {toks : List Tok} : ∀ {d : Nat}, SatChain d toks →
+    depthSat d (tokText toks) = lastLvl d toks := by
+  induction toks with
+  | nil => intro d _; rfl
+  | cons t r ih =>
+    intro d h
+    obtain ⟨t, l⟩ := t
+    simp only [tokText_cons, depthSat_append, h.1, lastLvl]
+    exact ih h.2
+
+theorem SatChain.left {pre post : List Tok} : ∀ {d : Nat}, SatChain d (pre ++ post) → SatChain d pre := by
+  induction pre with
+  | nil => intro d _; trivial
+  | cons t r ih =>
+    intro d h
+    obtain ⟨t, l⟩ := t
+    exact ⟨h.1, ih h.2⟩
+
+def SatGoal (s : Str) (toks : List Tok) : ScanMode → Prop
+  | .norm d => endsInSpecial false d s = false → SatChain d toks
+  | .spec k acc => endsInSpecial true k s = false → 1 ≤ k → depthSat 1 acc = k → SatChain 1 toks
+
+theorem scanM_sat (m : ScanMode) (s : Str) (toks : List Tok) (h : scanM m s = some toks) :
+    SatGoal s toks m := by
+  fun_induction scanM m s generalizing toks with
+  | case1 => cases h; simp [SatGoal, SatChain]
+  | case2 => simp [SatGoal, endsInSpecial]
+  | case3 d r hs ih =>
+    obtain ⟨t, ht, rfl⟩ := Option.map_eq_some_iff.1 h
+    simp only [SatGoal]
+    intro hsp
+    simp only [endsInSpecial, if_true] at hsp
+    obtain ⟨rfl, hr⟩ := hs
+    have := ih t ht (by simpa [hr] using hsp)
+    exact ⟨by simp [depthSat], this (by omega) (by simp [depthSat])⟩
+  | case4 => simp at h
+  | case5 d r hs hd' ih =>
+    obtain ⟨t, ht, rfl⟩ := Option.map_eq_some_iff.1 h
+    have hb : (decide (d = 0) && decide (r.head? = some '\\')) = false := by
+      simpa using hs
+    simp only [SatGoal]
+    intro hsp
+    simp only [endsInSpecial, if_true] at hsp
+    rw [hb] at hsp
+    have := ih t ht (by simpa using hsp)
+    exact ⟨by simp [depthSat], this⟩
+  | case6 d c r hc hcd ih =>
+    obtain ⟨t, ht, rfl⟩ := Option.map_eq_some_iff.1 h
+    obtain ⟨rfl, hd0⟩ := hcd
+    simp only [SatGoal]
+    intro hsp
+    simp only [endsInSpecial, if_true, if_neg hc] at hsp
+    have := ih t ht (by simpa using hsp)
+    exact ⟨by simp [depthSat], this⟩
+  | case7 d c r hc hcd ih =>
+    obtain ⟨t, ht, rfl⟩ := Option.map_eq_some_iff.1 h
+    simp only [SatGoal]
+    intro hsp
+    by_cases hc' : c = '}'
+    · have : d = 0 := by simp [hc'] at hcd; exact hcd
+      subst this; subst hc'
+      simp only [endsInSpecial, if_neg hc, if_true] at hsp
+      have := ih t ht (by simpa using hsp)
+      exact ⟨by simp [depthSat], this⟩
+    · simp only [endsInSpecial, if_neg hc, if_neg hc'] at hsp
+      have := ih t ht hsp
+      exact ⟨by simp [depthSat, hc, hc'], this⟩
+  | case8 => simp at h
+  | case9 k acc r hk ih =>
+    simp only [SatGoal]
+    intro hsp h1 h2
+    simp only [endsInSpecial, if_true] at hsp
+    exact ih toks h (by simpa using hsp) (by omega) (by simp [depthSat_append, h2, depthSat])
+  | case10 k acc r hk hne ih =>
+    obtain ⟨t, ht, rfl⟩ := Option.map_eq_some_iff.1 h
+    simp only [SatGoal]
+    intro hsp h1 h2
+    have hk1 : k = 1 := by omega
+    subst hk1
+    simp only [endsInSpecial, if_true, if_neg hne] at hsp
+    simp at hsp
+    have := ih t ht hsp
+    exact ⟨h2, by simp [depthSat], this⟩
+  | case11 k acc r hk hne ih =>
+    have hk1 : 1 < k := by omega
+    simp only [SatGoal]
+    intro hsp h1 h2
+    simp only [endsInSpecial, if_true, if_neg hne] at hsp
+    exact ih toks h (by simpa [hk1] using hsp) (by omega) (by simp [depthSat_append, h2, depthSat])
+  | case12 k acc c r hc hc2 ih =>
+    simp only [SatGoal]
+    intro hsp h1 h2
+    simp only [endsInSpecial, if_neg hc, if_neg hc2] at hsp
+    exact ih toks h hsp h1 (by simp [depthSat_append, h2, depthSat, hc, hc2])
+
+/-- where the brace depth never goes negative, the saturating depth is the depth -/
+theorem depthSat_of_depthAfter (s : Str) : ∀ d e, depthAfter d s = some e → depthSat d s = e := by
+  induction s with
+  | nil => intro d e h; simpa [depthAfter, depthSat] using h
+  | cons c r ih =>
+    intro d e h
+    simp only [depthAfter, depthSat] at h ⊢
+    split
+    · rename_i hc; rw [if_pos hc] at h; exact ih _ _ h
+    · rename_i hc; rw [if_neg hc] at h
+      split
+      · rename_i hc'; rw [if_pos hc'] at h
+        split at h
+        · cases h
+        · exact ih _ _ h
+      · rename_i hc'; rw [if_neg hc'] at h; exact ih _ _ h
+
+/-! ### purify -/
+
+theorem purifyTok_range (t : Tok) : ∀ c ∈ purifyTok t, isAlnum c = true ∨ c = ' ' := by
+  intro c hc
+  unfold purifyTok at hc
+  split at hc
+  · exact Or.inl (List.mem_filter.1 hc).2
+  · split at hc
+    · rename_i h; exact Or.inl (List.all_eq_true.1 h.2 c hc)
+    · split at hc
+      · simp at hc; exact Or.inr hc
+      · simp at hc
+
+theorem not_brace_of_alnum_or_space {c : Char} (h : isAlnum c = true ∨ c = ' ') : c ≠ '{' ∧ c ≠ '}' := by
+  rcases h with h | rfl
+  · constructor <;> rintro rfl <;> exact absurd h (by decide)
+  · decide
+
+theorem purifyTok_single {c : Char} (h : isAlnum c = true ∨ c = ' ') : purifyTok ([c], 0) = [c] := by
+  rcases h with h | rfl
+  · simp [purifyTok, h]
+  · decide
+
+theorem purify_fixed (p : Str) (hp : ∀ c ∈ p, isAlnum c = true ∨ c = ' ') : bibtexPurify p = some p := by
+  unfold bibtexPurify scan
+  rw [scanM_plain p 0 (fun c hc => not_brace_of_alnum_or_space (hp c hc))]
+  simp only [Option.map_some, Option.some.injEq, List.map_map]
+  induction p with
+  | nil => rfl
+  | cons c r ih =>
+    have := ih (fun x hx => hp x (List.mem_cons_of_mem _ hx))
+    simp only [List.map_cons, List.flatten_cons, Function.comp_apply, purifyTok_single (hp c (by simp)), this]
+    rfl
+
+/-! ### characters under ASCII case mapping -/
+
+theorem isAlpha_eq (c : Char) : isAlpha c = c.isAlpha := by
+  simp only [isAlpha, Char.isAlpha, Char.isUpper, Char.isLower, Char.toNat, UInt32.le_iff_toNat_le,
+    ge_iff_le, Bool.decide_and]
+  have h1 : 'A'.val.toNat = 65 := by decide
+  have h2 : 'Z'.val.toNat = 90 := by decide
+  have h3 : 'a'.val.toNat = 97 := by decide
+  have h4 : 'z'.val.toNat = 122 := by decide
+  rw [h1, h2, h3, h4]
+
+theorem lowerC_of_not_alpha {c : Char} (h : isAlpha c = false) : lowerC c = c := by
+  apply Char.toLower_eq_of_not_isUpper
+  rw [isAlpha_eq] at h
+  simp only [Char.isAlpha, Bool.or_eq_false_iff] at h
+  simp [h.1]
+
+theorem upperC_of_not_alpha {c : Char} (h : isAlpha c = false) : upperC c = c := by
+  apply Char.toUpper_eq_of_not_isLower
+  rw [isAlpha_eq] at h
+  simp only [Char.isAlpha, Bool.or_eq_false_iff] at h
+  simp [h.2]
+
+theorem isAlpha_lowerC (c : Char) : isAlpha (lowerC c) = isAlpha c := by
+  simp [isAlpha_eq, lowerC, Char.isAlpha_toLower_eq_isAlpha]
+
+theorem isAlpha_upperC (c : Char) : isAlpha (upperC c) = isAlpha c := by
+  simp [isAlpha_eq, upperC, Char.isAlpha_toUpper_eq_isAlpha]
+
+theorem lowerC_upperC (c : Char) : lowerC (upperC c) = lowerC c := Char.toLower_toUpper_eq_toLower c
+theorem upperC_upperC (c : Char) : upperC (upperC c) = upperC c := Char.toUpper_toUpper_eq_toUpper c
+
+/-- a non-letter is the image of itself only -/
+theorem lowerC_eq_iff {c x : Char} (hx : isAlpha x = false) : lowerC c = x ↔ c = x := by
+  cases hc : isAlpha c with
+  | false => rw [lowerC_of_not_alpha hc]
+  | true =>
+    constructor
+    · intro h
+      have := isAlpha_lowerC c
+      rw [h, hx, hc] at this; cases this
+    · intro h; rw [h, hx] at hc; cases hc
+
+theorem eq_iff_of_lowerC_eq {a b x : Char} (h : lowerC a = lowerC b) (hx : isAlpha x = false) :
+    a = x ↔ b = x := by
+  rw [← lowerC_eq_iff hx, h, lowerC_eq_iff hx]
+
+theorem isWs_of_lowerC_eq {a b : Char} (h : lowerC a = lowerC b) : isWs a = isWs b := by
+  cases ha : isAlpha a with
+  | false =>
+    rw [lowerC_of_not_alpha ha] at h
+    have hb : isAlpha b = false := by
+      have := isAlpha_lowerC b; rw [← h, ha] at this; exact this.symm
+    rw [lowerC_of_not_alpha hb] at h; rw [h]
+  | true =>
+    have hb : isAlpha b = true := by
+      have h1 := isAlpha_lowerC b; have h2 := isAlpha_lowerC a; rw [← h, h2, ha] at h1; exact h1.symm
+    have key : ∀ c, isAlpha c = true → isWs c = false := by
+      intro c hc
+      simp only [isAlpha, Bool.or_eq_true, Bool.and_eq_true, decide_eq_true_eq] at hc
+      simp only [isWs, wsCodes, List.contains_eq_mem, List.mem_cons, List.not_mem_nil, or_false,
+        decide_eq_false_iff_not]
+      omega
+    rw [key a ha, key b hb]
+
+theorem brace_not_alpha : isAlpha '{' = false ∧ isAlpha '}' = false ∧ isAlpha '\\' = false ∧
+    isAlpha ' ' = false ∧ isAlpha ':' = false := by decide
+
+/-! strings -/
+
+theorem upper_length (s : Str) : (upper s).length = s.length := by simp [upper]
+
+theorem lower_upper (s : Str) : lower (upper s) = lower s := by
+  induction s with
+  | nil => rfl
+  | cons c s ih => simp only [upper, List.map_cons, lower_cons, lowerC_upperC] at ih ⊢; rw [ih]
+
+theorem upper_upper (s : Str) : upper (upper s) = upper s := by
+  induction s with
+  | nil => rfl
+  | cons c s ih => simp only [upper, List.map_cons, upperC_upperC] at ih ⊢; rw [ih]
+
+theorem lower_eq_cons {s' : Str} {c : Char} {r : Str} (h : lower s' = lower (c :: r)) :
+    ∃ c' r', s' = c' :: r' ∧ lowerC c' = lowerC c ∧ lower r' = lower r := by
+  cases s' with
+  | nil => simp at h
+  | cons c' r' =>
+    simp only [lower_cons, List.cons.injEq] at h
+    exact ⟨c', r', rfl, h.1, h.2⟩
+
+theorem lower_eq_nil {s' : Str} (h : lower s' = lower []) : s' = [] := by
+  cases s' with
+  | nil => rfl
+  | cons c' r' => simp at h
+
+theorem length_eq_of_lower_eq {a b : Str} (h : lower a = lower b) : a.length = b.length := by
+  have := congrArg List.length h
+  simpa using this
+
+theorem head_iff_of_lower_eq {a b : Str} (h : lower a = lower b) {x : Char} (hx : isAlpha x = false) :
+    a.head? = some x ↔ b.head? = some x := by
+  cases a with
+  | nil => rw [lower_eq_nil h.symm]
+  | cons c r =>
+    obtain ⟨c', r', rfl, h1, _⟩ := lower_eq_cons h.symm
+    simp only [List.head?_cons, Option.some.injEq]
+    exact eq_iff_of_lowerC_eq h1.symm hx
+
+/-! ### case conversion of one token -/
+
+theorem lower_convertStr (m : CaseMode) (st : CaseState) (w : Str) : lower (convertStr m st w) = lower w := by
+  cases m with
+  | l => simp [convertStr]
+  | u => simp [convertStr, lower_upper]
+  | t => simp only [convertStr]; split <;> simp
+
+theorem convertStr_idem (m : CaseMode) (st : CaseState) (w : Str) :
+    convertStr m st (convertStr m st w) = convertStr m st w := by
+  cases m with
+  | l => simp [convertStr]
+  | u => simp [convertStr, upper_upper]
+  | t => simp only [convertStr]; split <;> simp
+
+theorem joinWith_splitSpace (t : Str) : joinWith [' '] (splitSpace t) = t := by
+  induction t with
+  | nil => rfl
+  | cons c r ih =>
+    simp only [splitSpace]
+    split
+    · rename_i hc
+      have hne : splitSpace r ≠ [] := by
+        cases r with
+        | nil => simp [splitSpace]
+        | cons a r' => simp only [splitSpace]; split <;> [simp; (split <;> simp)]
+      cases hs : splitSpace r with
+      | nil => exact absurd hs hne
+      | cons w ws => rw [hs] at ih; simp [joinWith, ih, hc]
+    · cases hs : splitSpace r with
+      | nil => rw [hs] at ih; simp only [joinWith] at ih ⊢; rw [← ih]
+      | cons w ws =>
+        rw [hs] at ih
+        cases ws with
+        | nil => simp only [joinWith] at ih ⊢; rw [ih]
+        | cons w2 ws' => simp only [joinWith, List.cons_append] at ih ⊢; rw [ih]
+
+theorem splitSpace_ne_nil (t : Str) : splitSpace t ≠ [] := by
+  cases t with
+  | nil => simp [splitSpace]
+  | cons a r' => simp only [splitSpace]; split <;> [simp; (split <;> simp)]
+
+theorem splitSpace_no_space (t : Str) : ∀ w ∈ splitSpace t, ' ' ∉ w := by
+  induction t with
+  | nil => simp [splitSpace]
+  | cons c r ih =>
+    simp only [splitSpace]
+    split
+    · intro w hw
+      rcases List.mem_cons.1 hw with rfl | hw
+      · simp
+      · exact ih w hw
+    · rename_i hc
+      cases hs : splitSpace r with
+      | nil => exact absurd hs (splitSpace_ne_nil r)
+      | cons w0 ws =>
+        rw [hs] at ih
+        intro w hw
+        rcases List.mem_cons.1 hw with rfl | hw
+        · have := ih w0 (by simp)
+          simp only [List.mem_cons, not_or]
+          exact ⟨fun h => hc h.symm, this⟩
+        · exact ih w (List.mem_cons_of_mem _ hw)
+
+theorem splitSpace_word_cons {x rest : Str} (hx : ' ' ∉ x) :
+    splitSpace (x ++ ' ' :: rest) = x :: splitSpace rest := by
+  induction x with
+  | nil => simp [splitSpace]
+  | cons c r ih =>
+    have hc : ¬ c = ' ' := fun h => hx (by simp [h])
+    have := ih (fun h => hx (List.mem_cons_of_mem _ h))
+    simp only [List.cons_append, splitSpace, if_neg hc, this]
+
+theorem splitSpace_word {x : Str} (hx : ' ' ∉ x) : splitSpace x = [x] := by
+  induction x with
+  | nil => rfl
+  | cons c r ih =>
+    have hc : ¬ c = ' ' := fun h => hx (by simp [h])
+    have := ih (fun h => hx (List.mem_cons_of_mem _ h))
+    simp only [splitSpace, if_neg hc, this]
+
+theorem splitSpace_joinWith (ws : List Str) (hne : ws ≠ []) (hw : ∀ w ∈ ws, ' ' ∉ w) :
+    splitSpace (joinWith [' '] ws) = ws := by
+  induction ws with
+  | nil => exact absurd rfl hne
+  | cons x r ih =>
+    cases r with
+    | nil => simpa [joinWith] using splitSpace_word (hw x (by simp))
+    | cons y r' =>
+      simp only [joinWith, List.append_assoc, List.cons_append, List.nil_append]
+      rw [splitSpace_word_cons (hw x (by simp)), ih (by simp) (fun w h => hw w (List.mem_cons_of_mem _ h))]
+
+theorem lower_joinWith_map (f : Str → Str) (hf : ∀ w, lower (f w) = lower w) (ws : List Str) :
+    lower (joinWith [' '] (ws.map f)) = lower (joinWith [' '] ws) := by
+  induction ws with
+  | nil => rfl
+  | cons x r ih =>
+    cases r with
+    | nil => simp [joinWith, hf]
+    | cons y r' =>
+      simp only [List.map_cons, joinWith, lower_append, hf] at ih ⊢
+      rw [ih]
+
+/-- the word map of `convertSpecial` -/
+def specialWord (m : CaseMode) (st : CaseState) (w : Str) : Str :=
+  if startsWithBackslash w then w else convertStr m st w
+
+theorem convertSpecial_eq (m : CaseMode) (st : CaseState) (t : Str) :
+    convertSpecial m st t = joinWith [' '] ((splitSpace t).map (specialWord m st)) := rfl
+
+theorem lower_specialWord (m : CaseMode) (st : CaseState) (w : Str) : lower (specialWord m st w) = lower w := by
+  simp only [specialWord]; split <;> simp [lower_convertStr]
+
+theorem lower_convertSpecial (m : CaseMode) (st : CaseState) (t : Str) :
+    lower (convertSpecial m st t) = lower t := by
+  rw [convertSpecial_eq, lower_joinWith_map _ (lower_specialWord m st), joinWith_splitSpace]
+
+theorem startsWithBackslash_of_lower_eq {a b : Str} (h : lower a = lower b) :
+    startsWithBackslash a = startsWithBackslash b := by
+  have := head_iff_of_lower_eq h brace_not_alpha.2.2.1
+  simp only [startsWithBackslash]
+  by_cases hb : b.head? = some '\\'
+  · simp [hb, this.2 hb]
+  · have : ¬ a.head? = some '\\' := fun ha => hb (this.1 ha)
+    simp [hb, this]
+
+theorem mem_iff_of_lower_eq {a b : Str} (h : lower a = lower b) {x : Char} (hx : isAlpha x = false) :
+    x ∈ a ↔ x ∈ b := by
+  induction a generalizing b with
+  | nil => rw [lower_eq_nil h.symm]
+  | cons c r ih =>
+    obtain ⟨c', r', rfl, h1, h2⟩ := lower_eq_cons h.symm
+    simp only [List.mem_cons]
+    rw [ih h2.symm, eq_comm, eq_iff_of_lowerC_eq h1.symm hx, eq_comm]
+
+theorem specialWord_idem (m : CaseMode) (st : CaseState) (w : Str) :
+    specialWord m st (specialWord m st w) = specialWord m st w := by
+  have h := startsWithBackslash_of_lower_eq (lower_specialWord m st w)
+  cases hw : startsWithBackslash w with
+  | true => simp [specialWord, hw]
+  | false =>
+    rw [hw] at h
+    have e : specialWord m st w = convertStr m st w := by simp [specialWord, hw]
+    rw [e] at h ⊢
+    simp [specialWord, h, convertStr_idem]
+
+theorem convertSpecial_idem (m : CaseMode) (st : CaseState) (t : Str) :
+    convertSpecial m st (convertSpecial m st t) = convertSpecial m st t := by
+  rw [convertSpecial_eq m st t]
+  rw [convertSpecial_eq, splitSpace_joinWith]
+  · rw [List.map_map]
+    congr 1
+    apply List.map_congr_left
+    intro w _
+    exact specialWord_idem m st w
+  · simpa using splitSpace_ne_nil t
+  · intro w hw
+    obtain ⟨w0, hw0, rfl⟩ := List.mem_map.1 hw
+    rw [mem_iff_of_lower_eq (lower_specialWord m st w0) brace_not_alpha.2.2.2.1]
+    exact splitSpace_no_space t w0 hw0
+
+/-! ### case conversion token by token -/
+
+def caseNext (st : CaseState) (t : Str) : CaseState :=
+  if t = [':'] then .afterColon
+  else if (t ≠ [] ∧ t.all isWs) ∧ st = .afterColon then .start
+  else .normal
+
+def caseTok (m : CaseMode) (st : CaseState) (t : Tok) : Str :=
+  match t with
+  | (t, 0) => convertStr m st t
+  | (t, l + 1) => if l + 1 = 1 ∧ startsWithBackslash t then convertSpecial m st t else t
+
+def caseToks (m : CaseMode) : CaseState → List Tok → List Tok
+  | _, [] => []
+  | st, (t, 0) :: r => (caseTok m st (t, 0), 0) :: caseToks m (caseNext st t) r
+  | st, (t, l + 1) :: r => (caseTok m st (t, l + 1), l + 1) :: caseToks m st r
+
+theorem changeCaseAux_eq (m : CaseMode) (toks : List Tok) : ∀ st,
+    changeCaseAux m st toks = tokText (caseToks m st toks) := by
+  induction toks with
+  | nil => intro st; rfl
+  | cons t r ih =>
+    intro st
+    obtain ⟨t, l⟩ := t
+    cases l with
+    | zero => simp only [changeCaseAux, caseToks, tokText_cons, caseTok, caseNext, ih]
+    | succ l => simp only [changeCaseAux, caseToks, tokText_cons, caseTok, ih]
+
+theorem lower_caseTok (m : CaseMode) (st : CaseState) (t : Tok) : lower (caseTok m st t) = lower t.1 := by
+  obtain ⟨t, l⟩ := t
+  cases l with
+  | zero => simp [caseTok, lower_convertStr]
+  | succ l => simp only [caseTok]; split <;> simp [lower_convertSpecial]
+
+theorem lower_caseToks (m : CaseMode) (toks : List Tok) : ∀ st,
+    lower (tokText (caseToks m st toks)) = lower (tokText toks) := by
+  induction toks with
+  | nil => intro st; rfl
+  | cons t r ih =>
+    intro st
+    obtain ⟨t, l⟩ := t
+    cases l with
+    | zero => simp only [caseToks, tokText_cons, lower_append, lower_caseTok, ih]
+    | succ l => simp only [caseToks, tokText_cons, lower_append, lower_caseTok, ih]
 end Pybtex
